@@ -1,12 +1,14 @@
 import TarsModel.Driver.Common
 import TarsModel.Driver.Logger
+import TarsModel.Driver.LogWriter
 
 open Tars.Driver
 
-/-- model driver for the `logger` stream (C20): `tm_logger logger` -/
+/-- model driver for C20: `tm_logger logger` (queue and flusher), `tm_logger rollwriter` (size-rolling writer) -/
 def main (args : List String) : IO UInt32 := do
   let stdin ← IO.getStdin
   let stdout ← IO.getStdout
   match args with
   | ["logger"] => loopPure stdin stdout Logger.handle; return 0
-  | _ => IO.eprintln "usage: tm_logger logger"; return 2
+  | ["rollwriter"] => loopPure stdin stdout LogWriter.handle; return 0
+  | _ => IO.eprintln "usage: tm_logger logger|rollwriter"; return 2
